@@ -64,6 +64,30 @@ FloatItemsFor(v, op) ==
                                    ELSE IF op.fls[i].k = "int" /\ Exact(op.fls[i].n, FBitsOf(v.var)) THEN op.fls[i]
                                    ELSE FAny]
 
+(* Text appended when a float is pushed onto a textual value: the number's shortest decimal    *)
+(* text that round-trips in its OWN type (f32 for extend_f32, f64 for extend_f64), without an   *)
+(* exponent; an integral value prints without a fraction.  Stated as data for a table of bit    *)
+(* patterns (f32: 0.1 0.3 16.16 1.0e10 -2.5 1.5; f64: 0.1 0.3 16.16 1e21 1e-7 -2.5 1.5); other  *)
+(* non-integral patterns stay undecided (AnyText).                                              *)
+FloatTextTable == <<
+    [b |-> "3dcccccd", t |-> <<48, 46, 49>>],
+    [b |-> "3e99999a", t |-> <<48, 46, 51>>],
+    [b |-> "418147ae", t |-> <<49, 54, 46, 49, 54>>],
+    [b |-> "501502f9", t |-> <<49, 48, 48, 48, 48, 48, 48, 48, 48, 48, 48>>],
+    [b |-> "c0200000", t |-> <<45, 50, 46, 53>>],
+    [b |-> "3fc00000", t |-> <<49, 46, 53>>],
+    [b |-> "3fb999999999999a", t |-> <<48, 46, 49>>],
+    [b |-> "3fd3333333333333", t |-> <<48, 46, 51>>],
+    [b |-> "403028f5c28f5c29", t |-> <<49, 54, 46, 49, 54>>],
+    [b |-> "444b1ae4d6e2ef50", t |-> <<49, 48, 48, 48, 48, 48, 48, 48, 48, 48, 48, 48, 48, 48, 48, 48, 48, 48, 48, 48, 48, 48>>],
+    [b |-> "3e7ad7f29abcaf48", t |-> <<48, 46, 48, 48, 48, 48, 48, 48, 49>>],
+    [b |-> "c004000000000000", t |-> <<45, 50, 46, 53>>],
+    [b |-> "3ff8000000000000", t |-> <<49, 46, 53>>] >>
+RECURSIVE TableIndex(_, _)
+TableIndex(b, i) == IF i > Len(FloatTextTable) THEN 0 ELSE IF FloatTextTable[i].b = b THEN i ELSE TableIndex(b, i + 1)
+FloatText(f) == IF f.k = "int" THEN NText(f.n)
+                ELSE LET i == TableIndex(f.b, 1) IN IF i = 0 THEN AnyText ELSE FloatTextTable[i].t
+
 Refused(v) == [ok |-> FALSE, v |-> v]
 Done(var, items) == [ok |-> TRUE, v |-> [var |-> var, items |-> items]]
 
@@ -79,7 +103,7 @@ Apply(v, op) ==
               [] OTHER -> Refused(v))
       [] op.o \in FloatOps ->
            (CASE v.var = "Empty" -> Done(ExtVar(op.o), op.fls)
-              [] v.var \in TextVars -> Done("Strs", v.items \o [i \in 1..Len(op.fls) |-> AnyText])
+              [] v.var \in TextVars -> Done("Strs", v.items \o [i \in 1..Len(op.fls) |-> FloatText(op.fls[i])])
               [] v.var \in IntVars \cup FloatVars -> Done(v.var, v.items \o FloatItemsFor(v, op))
               [] OTHER -> Refused(v))
       [] op.o = "trunc" ->
